@@ -33,6 +33,8 @@ mod stream_tx_segments;
 mod test_util;
 mod traits;
 mod utils;
+#[cfg(feature = "verif")]
+pub mod verif;
 
 pub use error::{Error, Result};
 pub use librqbit_dualstack_sockets::BindDevice;
